@@ -70,7 +70,7 @@ def default_execute(scn, ctx, timeout=10.0, digests=False):
     cwd = w.base if env.get("cwd", 0) == -1 else w.paths[env.get("cwd", 0)]
     obs = {}
     for run in scn["runs"]:
-        argv = [subst(a, w) for a in run["argv"]]
+        argv = [subst(a, w) if isinstance(a, str) else lib._chars(a) for a in run["argv"]]      # (an argument given as bytes is passed on as it is)
         kw = dict(tz=env.get("tz", "UTC"), fake_epoch=(env.get("fake_epoch") if (env.get("fake_epoch") or -1) >= 0 else None),
                   fail_after=run.get("fail_after"), uid=env.get("uid"),
                   user_home=(w.paths[env["home"]] if env.get("home") is not None else None))
